@@ -372,10 +372,13 @@ func statsReplay(job []byte, out *Out) error {
 	if err := json.Unmarshal(job, &j); err != nil {
 		return err
 	}
-	for _, v := range j.Vectors {
+	type key struct{ id, call int }
+	first := map[key][]entryRes{}
+	var order []map[string]interface{}
+	materialise := func(v *Vec) ([]bool, error) {
 		bits, err := parseBits(v.Bits)
 		if err != nil {
-			return err
+			return nil, err
 		}
 		if v.Repeat > 0 && len(v.Word) > 0 {
 			bits = make([]bool, v.Repeat)
@@ -383,8 +386,18 @@ func statsReplay(job []byte, out *Out) error {
 				bits[i] = v.Word[i%len(v.Word)] != 0
 			}
 		}
+		return bits, nil
+	}
+	for vi := range j.Vectors {
+		v := &j.Vectors[vi]
+		bits, err := materialise(v)
+		if err != nil {
+			return err
+		}
 		for ci_, c := range v.Calls {
-			res := map[string]interface{}{"id": v.ID, "call": ci_, "t": c["t"], "entries": entries(c, bits)}
+			ents := entries(c, bits)
+			first[key{v.ID, ci_}] = ents
+			res := map[string]interface{}{"id": v.ID, "call": ci_, "t": c["t"], "entries": ents}
 			if j.Proxy {
 				func() {
 					defer func() {
@@ -395,8 +408,32 @@ func statsReplay(job []byte, out *Out) error {
 					res["proxy"] = proxyStat(c, bits)
 				}()
 			}
-			out.Emit(res)
+			order = append(order, res)
 		}
+	}
+	// call histories: the same calls once more in the opposite order within this process; a result that depends on what
+	// was called before (a cache, a pool, a lazily built table) differs bit-wise from the first pass
+	for vi := len(j.Vectors) - 1; vi >= 0; vi-- {
+		v := &j.Vectors[vi]
+		if len(j.Vectors) > 1 && len(v.Bits) > 400000 {
+			continue // very large inputs are replayed once
+		}
+		bits, err := materialise(v)
+		if err != nil {
+			return err
+		}
+		for ci_ := len(v.Calls) - 1; ci_ >= 0; ci_-- {
+			again := entries(v.Calls[ci_], bits)
+			f := first[key{v.ID, ci_}]
+			for k := range f {
+				if k < len(again) && (again[k].PB != f[k].PB || again[k].QB != f[k].QB || again[k].Panic != f[k].Panic) {
+					f[k].NonDet = true
+				}
+			}
+		}
+	}
+	for _, res := range order {
+		out.Emit(res)
 	}
 	return nil
 }
